@@ -105,6 +105,14 @@ def squeezeShape (s : List Nat) : List Nat := s.filter (· != 1)
     samples before it (time-window slicing is the subject of C01). -/
 def overlap (n lead : Nat) (data : List Int) : List Int := (data.drop lead).take n
 
+/-- `BaseScan._get_photon_count` for a photon stream on the info wave's grid whose first sample lies
+    `lead` samples before (`lead ≥ 0`) or `-lead` samples after (`lead < 0`) the first info-wave sample.
+    `none` = the stream starts inside the scan: the code calls `_fix_incorrect_start` (a `Scan` raises
+    `RuntimeError`; a `Kymo` drops its first line — that repair is the subject of C19, not modelled here). -/
+def photonCount (n : Nat) (lead : Int) (data : List Int) : Option (List Int) :=
+  if lead ≥ 0 then some (overlap n lead.toNat data)
+  else if (data.take (n - lead.natAbs)).length = 0 then some [] else none
+
 /-- `_get_confocal_data`: when the sizes differ both streams are cut at the earlier stop. -/
 def align (data : List Int) (iw : List Nat) : List Int × List Nat :=
   if data.length ≠ iw.length then
@@ -252,22 +260,27 @@ def handle : List String → Option String
     let data ← intList? data; let iw ← natList? iw
     if data.length ≠ iw.length then none else some (showIntList (pixelsSpec data iw))
   | ["c02.kymo", p, iw, lead, ch] => do
-    let p ← nat? p; let iw ← natList? iw; let lead ← nat? lead; let ch ← chan? ch
+    let p ← nat? p; let iw ← natList? iw; let lead ← int? lead; let ch ← chan? ch
     if p = 0 then none
-    else some (showImage (kymoGetImage p iw (overlap iw.length lead ch)))
+    else
+      let pc ← photonCount iw.length lead ch
+      some (showImage (kymoGetImage p iw pc))
   | ["c02.kymometa", ax, p, iw, lead, ch] => do
-    let ax ← nat? ax; let p ← nat? p; let iw ← natList? iw; let lead ← nat? lead; let ch ← chan? ch
+    let ax ← nat? ax; let p ← nat? p; let iw ← natList? iw; let lead ← int? lead; let ch ← chan? ch
     if p = 0 then none
     else
       let ppl := pixelsPerLine [(ax, p)]
-      match kymoGetImage ppl iw (overlap iw.length lead ch) with
+      let pc ← photonCount iw.length lead ch
+      match kymoGetImage ppl iw pc with
       | .err e => some e
       | .ok im => some (showNatList (im.shape ++ [3]) ++ " " ++ toString ppl)
   | ["c02.scan", fa, fp, sa, sp, iw, lead, ch] => do
     let axes ← axes? fa fp sa sp
-    let iw ← natList? iw; let lead ← nat? lead; let ch ← chan? ch
+    let iw ← natList? iw; let lead ← int? lead; let ch ← chan? ch
     if pixelsPerLine axes < 2 ∨ linesPerFrame axes < 2 then none
-    else some (showImage (scanGetImage axes iw (overlap iw.length lead ch)))
+    else match photonCount iw.length lead ch with
+      | none => some "RuntimeError"
+      | some pc => some (showImage (scanGetImage axes iw pc))
   | ["c02.scanmeta", fa, fp, sa, sp, m, iw] => do
     let axes ← axes? fa fp sa sp
     let m ← nat? m; let iw ← natList? iw
